@@ -383,6 +383,63 @@ class FLOOR:
         return -u <= v and v + u < 1              # negative number, negative significance: toward zero: -u = floor(v)
 
 
+@contract('hotxlfp.formulas.mathtrig:CEILING', props=['C17'])
+class CEILING_fixed_significance:
+    # dyadic significances: number / significance is exact in floating point, so the postcondition also holds natively, on exact rationals
+    # in units of |significance|: u = result / |s| is an integer adjacent to v = number / |s| on the documented side
+    # the same postcondition for ALL numbers and a list of concrete significances: the quotient is then linear and the solver decides it
+    args = dict(number=INT | FLOAT)
+    cases = [dict(significance=1), dict(significance=2), dict(significance=4), dict(significance=0.5), dict(significance=0.25),
+             dict(significance=-1), dict(significance=-2), dict(significance=-0.5), dict(significance=0)]
+    timeout_s = 40
+    solver_timeout_ms = 10000
+
+    def post(number, significance, out):
+        if not out.ret:
+            return False
+        if significance == 0:
+            return same(out.value, 0)
+        s = real(abs(significance))
+        u = real(out.value) / s
+        v = real(abs(number)) / s
+        if u != floor(u):
+            return False                         # a multiple of the significance
+        if number >= 0:
+            return u >= v and u - v < 1           # the adjacent multiple at or above
+        if significance > 0:
+            return -u <= v and v + u < 1          # negative number, positive significance: toward zero (= up): -u = floor(v)
+        return -u >= v and -u - v < 1             # negative number, negative significance: away from zero: -u = ceil(v)
+
+
+@contract('hotxlfp.formulas.mathtrig:FLOOR', props=['C17'])
+class FLOOR_fixed_significance:
+    # dyadic significances: number / significance is exact in floating point, so the postcondition also holds natively, on exact rationals
+    # the same postcondition for ALL numbers and a list of concrete significances: the quotient is then linear and the solver decides it
+    args = dict(number=INT | FLOAT)
+    cases = [dict(significance=1), dict(significance=2), dict(significance=4), dict(significance=0.5), dict(significance=0.25),
+             dict(significance=-1), dict(significance=-2), dict(significance=-0.5), dict(significance=0)]
+    timeout_s = 40
+    solver_timeout_ms = 10000
+
+    def post(number, significance, out):
+        if not out.ret:
+            return False
+        if significance == 0:
+            return same(out.value, 0)
+        if number > 0 and significance < 0:
+            return same(out.value, NUM)
+        s = real(abs(significance))
+        u = real(out.value) / s
+        v = real(abs(number)) / s
+        if u != floor(u):
+            return False
+        if number >= 0:
+            return u <= v and v - u < 1           # the adjacent multiple at or below
+        if significance > 0:
+            return -u >= v and -u - v < 1         # negative number, positive significance: away from zero (= down): -u = ceil(v)
+        return -u <= v and v + u < 1              # negative number, negative significance: toward zero: -u = floor(v)
+
+
 @contract('hotxlfp.formulas.mathtrig:DECIMAL', props=['C17'])
 class DECIMAL:
     args = dict(text=STR, base=INT)
